@@ -347,3 +347,21 @@ for _p in PLAN:
                 _j["stubs"] = "alloc+indicator+upto3"
             if _j["h"].startswith("c06_whole") or _j["h"].startswith("c07_small"):
                 _j["stubs"] = "alloc+absmove (real map_bit_board_to_squares loop)"
+
+# ---- thorough tiers: only harnesses that have been validated on the unchanged tree are registered
+# ---- (an unvalidated deep harness that hits its cap would make the thorough command exit 2).
+# ---- CANDIDATES keeps the deeper instances; bin/check <P> --tier candidates runs them for validation.
+VALIDATED_EXTRA = {}
+try:
+    import json as _json, os as _os
+    _vp = _os.path.join(_os.path.dirname(_os.path.abspath(__file__)), "validated_thorough.json")
+    if _os.path.exists(_vp):
+        VALIDATED_EXTRA = _json.load(open(_vp))
+except Exception:  # noqa
+    VALIDATED_EXTRA = {}
+for _p in PLAN:
+    _q = {j["h"] for j in PLAN[_p]["quick"]}
+    _cand = [j for j in PLAN[_p]["thorough"] if j["h"] not in _q]
+    PLAN[_p]["candidates"] = _cand
+    _ok = set(VALIDATED_EXTRA.get(_p, []))
+    PLAN[_p]["thorough"] = list(PLAN[_p]["quick"]) + [j for j in _cand if j["h"] in _ok]
